@@ -84,3 +84,46 @@ Proof.
   rewrite (u8_id (lo pc)), (u8_id (hi pc)), Epc, Esp in E by (apply is8_u8);
   subst r; cbv_struct; repeat split.
 Qed.
+
+(* ---- C04: CALL nn ... RET: a subroutine that returns at once gives control back to the instruction after the CALL
+   with SP restored and every register intact; the return address is on the stack, high byte at SP-1, low byte at SP-2 ---- *)
+Lemma dm_call : decode_main 205 = CALL. Proof. vm_compute. reflexivity. Qed.
+Lemma dm_ret : decode_main 201 = RET. Proof. vm_compute. reflexivity. Qed.
+Lemma u16_pred_ne x : u16 (u16 x - 1) <> u16 x.
+Proof.
+  rewrite !u16_mod. pose proof (Z.mod_pos_bound x 65536 ltac:(lia)).
+  intro E. destruct (Z.eq_dec (x mod 65536) 0) as [E1|E1].
+  - rewrite E1 in E. vm_compute in E. discriminate.
+  - rewrite Z.mod_small in E by lia. lia.
+Qed.
+Theorem call_ret_round_trip u cpu : WF cpu -> g_Memory cpu = UserMem -> g_Interrupt cpu = None ->
+  let pc := g_PC cpu in let nn := mk16 (u8 (ram (g_W cpu) (u16 (u16 (pc + 1) + 1)))) (u8 (ram (g_W cpu) (u16 (pc + 1)))) in
+  let sp1 := u16 (g_SP cpu - 1) in let sp2 := u16 (sp1 - 1) in
+  u8 (ram (g_W cpu) pc) = 205 -> u8 (ram (g_W cpu) nn) = 201 -> sp1 <> nn -> sp2 <> nn ->
+  let cpu' := spec_iter u 2 cpu in
+  g_GPR cpu' = g_GPR cpu /\ g_Alternate cpu' = g_Alternate cpu /\ g_IX cpu' = g_IX cpu /\ g_IY cpu' = g_IY cpu /\
+  g_SP cpu' = g_SP cpu /\ g_PC cpu' = u16 (u16 (u16 (pc + 1) + 1) + 1) /\
+  g_IFF1 cpu' = g_IFF1 cpu /\ g_IFF2 cpu' = g_IFF2 cpu /\
+  ram (g_W cpu') = upd (upd (ram (g_W cpu)) sp1 (hi (u16 (u16 (u16 (pc + 1) + 1) + 1)))) sp2 (lo (u16 (u16 (u16 (pc + 1) + 1) + 1))).
+Proof.
+  intros Hwf Hm Hi pc0 nn sp1 sp2 H0 H1 N1 N2 cpu'. subst pc0 nn sp1 sp2. remember cpu' as r eqn:E. subst cpu'. open_cpu cpu.
+  cbv_struct_in Hm. cbv_struct_in Hi. cbv_struct_in H0. cbv_struct_in H1. cbv_struct_in N1. cbv_struct_in N2. wf_open Hwf. subst mem irq.
+  cbn [spec_iter] in E. unfold spec_step at 2 in E. cbv_struct_in E. unfold step_instr in E.
+  cbv beta iota zeta delta [fetch_m1 fetch8 rd mem_get wget w_log inc16] in E. cbv_struct_in E.
+  rewrite H0, dm_call in E.
+  cbv beta iota zeta delta [exec Spec.Exec.fetch16 fetch8 push16 dec16 rd wr mem_get mem_set wget wset w_log inc16] in E. cbv_struct_in E.
+  unfold spec_step in E. cbv_struct_in E. unfold step_instr in E.
+  cbv beta iota zeta delta [fetch_m1 fetch8 rd mem_get wget w_log inc16] in E. cbv_struct_in E.
+  rewrite !upd_other in E by congruence. rewrite H1, dm_ret in E.
+  pose proof (u16_pred_ne (sp - 1)) as Nsp.
+  assert (Esp1 : u16 (u16 (u16 (sp - 1) - 1) + 1) = u16 (sp - 1)).
+  { rewrite u16_sub_u16_l, u16_add_u16_l. f_equal. lia. }
+  assert (Esp : u16 (u16 (sp - 1) + 1) = sp).
+  { rewrite u16_add_u16_l. replace (sp - 1 + 1) with sp by lia. apply u16_id. assumption. }
+  set (ret := u16 (u16 (u16 (pc + 1) + 1) + 1)) in *.
+  assert (Epc : mk16 (hi ret) (lo ret) = ret) by (apply mk16_hi_lo; apply is16_u16).
+  cbv beta iota zeta delta [exec pop16 rd mem_get wget w_log inc16] in E; cbv_struct_in E.
+  rewrite Esp1 in E. rewrite upd_same in E. rewrite (upd_other _ _ _ (u16 (sp - 1))) in E by congruence. rewrite upd_same in E.
+  rewrite (u8_id (lo ret)), (u8_id (hi ret)), Epc, Esp in E by (apply is8_u8).
+  subst r; cbv_struct; repeat split.
+Qed.
